@@ -389,6 +389,8 @@ def quantities(o):
 def feq(a, b, tol=1e-9):
     if isinstance(a, str) or isinstance(b, str) or isinstance(a, bool):
         return a == b
+    if a != a and b != b:
+        return True            # an unchanged NaN is unchanged
     if a != a or b != b:
         return False
     if math.isinf(a) or math.isinf(b):
@@ -568,8 +570,8 @@ def check_history(hist, stop_at_first=True):
                       expected=sc * pickup_value(o, a, src) + off, dependency=(a != 'thickness' and False))
             elif t == 'solve' and not structural:
                 bad = solve_violation(o, [[op[1], op[2]]], [], 'add')
-                if bad and pre_ua is not None and op[1] >= 1 and abs(pre_ua[op[1] - 1]) <= 1e-9:
-                    bad = None       # precondition: the ray arriving at the surface is not parallel to the axis
+                if pre_ua is not None and op[1] >= 1 and not abs(pre_ua[op[1] - 1]) > 1e-9:
+                    break            # precondition: the ray arriving at the surface is not parallel to the axis
                 if bad:
                     bad['launch_changed'] = launch_changed(o, pre_ya, pre_ua)
                     V(**bad)
@@ -597,6 +599,8 @@ def check_history(hist, stop_at_first=True):
                 # precondition: the marginal ray is not parallel to the axis in image space (afocal lens)
                 if pre_ua is not None and abs(pre_ua[-1]) > 1e-9 and not (abs(y) <= 1e-9 * (1 + scale)):
                     V('image-solve-focus', ya_last=y, same_medium=feq(f1(ua[-1]), f1(ua[-2])))
+                if pre_ua is None or not abs(pre_ua[-1]) > 1e-9:
+                    break            # precondition failed (afocal): the call legitimately produced inf/NaN
             if viol and stop_at_first:
                 break
     return viol[:1] if stop_at_first else viol
